@@ -103,7 +103,7 @@ type C03LiveCase struct {
 	Msgs        int    `json:"msgs"`
 	Concurrency int    `json:"concurrency"`
 	Targets     int    `json:"targets"`
-	HoldMs      int    `json:"hold_ms"`   // how long the target sits on a request
+	HoldMs      int    `json:"hold_ms"`    // how long the target sits on a request
 	FailFirst   int    `json:"fail_first"` // first k requests per message answer 503
 }
 
